@@ -4,6 +4,7 @@ import ast
 import z3
 from .core import *
 from .ops import *
+from . import ops as ops_mod
 from .sym import *
 from .sym_expr import ExprMixin
 from .sym_call import CallMixin, State_with_top
@@ -84,6 +85,16 @@ class Exec(ExprMixin, CallMixin, BuiltinMixin, StmtMixin, ExecBase):
             st.pc.append(truth(self.eval_spec(ex, st, env, None, c.module)))
         if not self.feasible(st):
             raise BindError("precondition of %s is unsatisfiable (vacuous contract)" % c.qn)
+        for cv in c.covers:
+            s2 = st.copy()
+            g = truth(self.eval_spec(cv, s2, env, None, c.module))
+            sol = z3.Solver()
+            sol.set("timeout", 10000)
+            for a in list(ops_mod.DEFAULT_AXIOMS) + list(self.axioms) + list(s2.pc) + [g]:
+                sol.add(a)
+            if sol.check() == z3.unsat:
+                raise BindError("cover `%s` of %s is unreachable under its preconditions (vacuous case)" % (cv, c.qn))
+            self.covers.append((c.key, cv))
         if getattr(c, "ghost_init", None):
             gcx = Cx(c.module, spec=True, acc=[], contract=None)
             st = self.exec_ghost(c.ghost_init, [st], Cx(mod, contract=c, acc=[]))[0]
@@ -142,7 +153,7 @@ class Exec(ExprMixin, CallMixin, BuiltinMixin, StmtMixin, ExecBase):
         env = self._spec_env(c, s, entry_env, result)
         if c.result is not None and not isinstance(result, VNone):
             try:
-                env["result"] = coerce(result, c.result)
+                env["result"] = coerce(self.narrow_deep(s, result, c.result), c.result)
             except Unsupported:
                 env["result"] = result
         for exc, cond in c.raises.items():
